@@ -168,10 +168,10 @@ func main() {
 	}
 
 	thorough := r.Thorough()
-	N := r.Pick(8, 10)     // nodes per tree, part (a)
-	F := r.Pick(20, 30)    // fork heights, deep family
-	L := r.Pick(70, 130)   // branch lengths, deep family
-	K := r.Pick(4, 5)      // non-genesis nodes, part (b)
+	N := r.Pick(8, 10)                    // nodes per tree, part (a)
+	F := r.Pick(20, 30)                   // fork heights, deep family
+	L := r.Pick(70, 130)                  // branch lengths, deep family
+	K := r.Pick(4, 5)                     // non-genesis nodes, part (b)
 	if v := os.Getenv("C17_K"); v != "" { // development aid
 		fmt.Sscan(v, &K)
 	}
@@ -382,12 +382,12 @@ func main() {
 
 	r.Set("bounds", map[string]interface{}{
 		"a_max_nodes": N, "a_shapes_per_size": perSize,
-		"a_queries": "per shape: Ancestor/RelativeAncestor(Ctx) for h,d in {MinInt32,-2..H+2,MaxInt32-1,MaxInt32}; IsAncestor all pairs (+nil); SetTip for every ordered tip pair (nil included); per tip (and nil tip): Height/Tip/Genesis/Contains/Next/FindFork/BlockLocator for every node (+nil), NodeByHeight all heights; MainChainHasBlock, BlockHeightByHash, BlockHashByHeight, BlockLocatorFromHash (unknown->tip), LatestBlockLocator, HeaderByHash, HeightRange over the full square of heights, IntervalBlockHashes (every end +unknown, intervals 1,2,3,maxH+1), HeightToHashRange (every start, every end +unknown, max 0,1,2,n), ChainTips; LocateBlocks/locateHeaders/LocateHeaders for locators {empty,[unknown],[x],[x,y] all ordered pairs,[unknown,x],[x,unknown],proper locator of x} x stop {every node, zero, unknown} x max {0,1,2,2000}; per (tip, header tip): best-header view battery, BestHeader, BestChainHeaderForkHeight, HeaderHashByHeight, HeaderHeightByHash, IsValidHeader, LatestBlockLocatorByHeader",
-		"a_status_pattern": "node i: i%3==2 not validated, i%4==3 validate-failed, else valid",
+		"a_queries":         "per shape: Ancestor/RelativeAncestor(Ctx) for h,d in {MinInt32,-2..H+2,MaxInt32-1,MaxInt32}; IsAncestor all pairs (+nil); SetTip for every ordered tip pair (nil included); per tip (and nil tip): Height/Tip/Genesis/Contains/Next/FindFork/BlockLocator for every node (+nil), NodeByHeight all heights; MainChainHasBlock, BlockHeightByHash, BlockHashByHeight, BlockLocatorFromHash (unknown->tip), LatestBlockLocator, HeaderByHash, HeightRange over the full square of heights, IntervalBlockHashes (every end +unknown, intervals 1,2,3,maxH+1), HeightToHashRange (every start, every end +unknown, max 0,1,2,n), ChainTips; LocateBlocks/locateHeaders/LocateHeaders for locators {empty,[unknown],[x],[x,y] all ordered pairs,[unknown,x],[x,unknown],proper locator of x} x stop {every node, zero, unknown} x max {0,1,2,2000}; per (tip, header tip): best-header view battery, BestHeader, BestChainHeaderForkHeight, HeaderHashByHeight, HeaderHeightByHash, IsValidHeader, LatestBlockLocatorByHeader",
+		"a_status_pattern":  "node i: i%3==2 not validated, i%4==3 validate-failed, else valid",
 		"deep_fork_heights": fmt.Sprintf("0..%d", F), "deep_branch_lengths": fmt.Sprintf("0..%d", L),
 		"b_max_blocks": K, "b_configurations": len(cfgs),
-		"b_events":     "H_i = ProcessBlockHeader(header_i, BFNone, false), B_i = ProcessBlock(block_i, BFNone); H_i enabled once parent's header or block was delivered and neither H_i nor B_i was; B_i enabled once parent's block was delivered",
-		"b_invalid":    "one node whose coinbase overpays by 1 satoshi (found at connect time only), every node up to tree symmetry, or none",
+		"b_events":  "H_i = ProcessBlockHeader(header_i, BFNone, false), B_i = ProcessBlock(block_i, BFNone); H_i enabled once parent's header or block was delivered and neither H_i nor B_i was; B_i enabled once parent's block was delivered",
+		"b_invalid": "one node whose coinbase overpays by 1 satoshi (found at connect time only), every node up to tree symmetry, or none",
 	})
 
 	// confirm every finding three more times before believing it
